@@ -9,10 +9,16 @@ ENGINES = [
          kind_free_text="explicit-state BFS / exhaustive configuration enumeration over the real Timer, Btdmp, Dma+Ahbm objects with lock-step reference models"),
     dict(name="sys", path="engines/sys", serves_properties=["C06", "C07", "C11", "C12", "C14", "C17"],
          kind_free_text="explicit-state BFS over the whole Teakra facade (host API + DSP-side MMIO) with snapshot/restore of the plain state and lock-step reference models"),
+    dict(name="isa", path="engines/isa", serves_properties=["C01"],
+         kind_free_text="single-instruction enumerator over all 65536 opcodes x bounded state alphabet; two glue libraries (implementation vs frozen reference) behind a C ABI; decode introspection through a generated recording visitor; harness-owned choice engine inside the real test generator"),
 ]
 
 # id -> (engine, technique, level text, level note, design ref)
 CLAIMED = {
+    "C01": ("isa", "exhaustive enumeration of all 65536 opcodes x second-word alphabet x bounded state alphabet (bases + all 1-field deviations), each executed on the implementation and on a frozen reference library, outcomes compared; generator clause: enumeration of the RNG-answer alphabet with bounded deviations through the real generator",
+            "The opcode space is enumerated completely, so every per-opcode deviation from the hardware-validated semantics that shows on some state of the alphabet is found, not only the ones a test happens to execute; the state alphabet holds every boundary value of every register-file field (incl. hidden shadow banks) one field at a time. The generator clause owns the generator's only nondeterminism (its RNG) and enumerates min/max/mid answers for every draw with bounded deviations, so the window/pc/no-abort guarantees are checked on the boundary vectors the generator can emit.",
+            "Trusted: /verif/ref (frozen copy of the interpreter at the pinned, hardware-validated state plus fix: commits, sha256 recorded), the glue flattening, libstdc++'s uniform_int_distribution mapping, g++. States outside the alphabet (multi-field combinations beyond the bases) are not visited.",
+            "DESIGN.md section 4, C01"),
     "C06": ("sys", "exhaustive enumeration of every partition of the cycle budget (all 2-partitions, 3-partitions, host events at every boundary) for every program of a generated family, compared with the n x Run(1) trace of the same program on the real machine",
             "For each of ~30k generated programs (idle/busy main lines, six handler kinds, timer modes/start values/routing, second timer, audio periods and fills, mailbox/semaphore/software-IRQ events at every cycle position) the real machine is run once per slicing and its complete observable state after every slice (registers incl. hidden banks, latches, timers, audio port, ICU, APBP, stack, ordered callback log) is compared with the single-step trace. The set of slicings is enumerated completely for 2 (and 3) slices, which is where an idle fast-forward bug has to show.",
             "Trusted: snapshot/restore of the plain machine state (MMIO cell backing words are never written with unmodelled bits), g++. Programs are limited to the generated family and n<=48 cycles; the idle flag internal to a Run call is not compared.",
